@@ -448,3 +448,214 @@ Print Assumptions unselected_entry_protected.
 Print Assumptions safe_pattern_sound_ns.
 Print Assumptions unselected_entry_protected_ns.
 Print Assumptions prefix_pattern_equiv.
+
+(* ====================================================================================================
+   The FILE-level check (isFileSkipped / RunFilter.file_skipped_run): with a non-empty pattern a file is protected iff its
+   sibling test file parses and NO function name of it matches the whole pattern. Function names are Go identifiers: they
+   contain neither '/' nor ' '. For EVERY pattern of the class - multi-level alternatives included - a whole-pattern match
+   against a slash-free name implies that Go selects that top-level function, so a file none of whose functions is selected
+   is protected. For single-level patterns the two decisions coincide on function names.
+   ==================================================================================================== *)
+
+(* ---------- a matching literal lies inside the subject ---------- *)
+
+Lemma is_prefix_incl p s c : is_prefix p s = true -> In c p -> In c s.
+Proof.
+  intros H Hin. apply is_prefix_spec in H as [r ->]. apply in_or_app. now left.
+Qed.
+
+Lemma index_of_incl pat s n c : index_of pat s = Some n -> In c pat -> In c s.
+Proof.
+  revert n. induction s as [|d s IH]; intros n H Hin.
+  - cbn [index_of] in H. destruct (is_prefix pat []) eqn:E; [|discriminate].
+    now apply (is_prefix_incl pat [] c E).
+  - cbn [index_of] in H. destruct (is_prefix pat (d :: s)) eqn:E.
+    + now apply (is_prefix_incl pat (d :: s) c E).
+    + destruct (index_of pat s) as [m|]; [|discriminate]. right. now apply (IH m).
+Qed.
+
+Lemma alt_match_incl a s c : alt_match a s = true -> In c (a_lit a) -> In c s.
+Proof.
+  unfold alt_match. intros H Hin. destruct (a_start a), (a_end a).
+  - apply beq_eq in H. now rewrite <- H.
+  - now apply (is_prefix_incl (a_lit a) s c).
+  - unfold is_suffix in H. apply in_rev. apply (is_prefix_incl (rev (a_lit a)) (rev s) c H).
+    rewrite <- in_rev. exact Hin.
+  - unfold contains in H. destruct (index_of (a_lit a) s) as [n|] eqn:E; [|discriminate].
+    now apply (index_of_incl (a_lit a) s n c).
+Qed.
+
+(* ---------- stripping ^ and $ keeps every '/' ---------- *)
+
+Lemma strip_caret_keeps c s : c <> caret -> In c s -> In c (snd (strip_caret s)).
+Proof.
+  intros Hc Hin. unfold strip_caret. destruct s as [|c0 r]; [contradiction|].
+  destruct (N.eqb_spec c0 caret) as [->|Hne]; cbn [snd]; [|assumption].
+  destruct Hin as [Heq|Hin]; [now symmetry in Heq|assumption].
+Qed.
+
+Lemma strip_dollar_keeps c s : c <> dollar -> In c s -> In c (snd (strip_dollar s)).
+Proof.
+  intros Hc Hin. unfold strip_dollar. apply in_rev in Hin.
+  destruct (rev s) as [|d r'] eqn:E; [contradiction|].
+  destruct (N.eqb_spec d dollar) as [->|Hne]; cbn [snd].
+  - rewrite <- in_rev. destruct Hin as [Heq|Hin]; [now symmetry in Heq|assumption].
+  - apply in_rev. rewrite E. exact Hin.
+Qed.
+
+Lemma parse_alt_lit_keeps c t : c <> caret -> c <> dollar -> In c t -> In c (a_lit (parse_alt t)).
+Proof.
+  intros Hc Hd Hin. rewrite parse_alt_eq. cbn [a_lit]. now apply strip_dollar_keeps, strip_caret_keeps.
+Qed.
+
+(* a multi-level alternative never matches, as a whole, a slash-free name *)
+Lemma multi_level_alt_no_match t name :
+  In slash t -> ~ In slash name -> alt_match (parse_alt t) name = false.
+Proof.
+  intros Ht Hn. destruct (alt_match (parse_alt t) name) eqn:E; [|reflexivity].
+  exfalso. apply Hn. apply (alt_match_incl (parse_alt t) name slash E).
+  apply parse_alt_lit_keeps; [discriminate|discriminate|assumption].
+Qed.
+
+(* ---------- Go's selection of a top-level (slash-free) name: only the first element of each alternative counts ---------- *)
+
+Lemma go_alt_selects_top t name :
+  ~ In slash name -> go_alt_selects t name = alt_match (parse_alt (hd [] (split_slash t))) name.
+Proof.
+  intros Hn. unfold go_alt_selects. rewrite (split_slash_noslash name Hn).
+  destruct (split_slash t) as [|e es] eqn:E; [now destruct (split_slash_nonempty t)|].
+  cbn [map go_levels hd]. destruct (map parse_alt es); apply andb_true_r.
+Qed.
+
+Lemma go_alt_selects_single_top t name :
+  ~ In slash t -> ~ In slash name -> go_alt_selects t name = alt_match (parse_alt t) name.
+Proof.
+  intros Ht Hn. rewrite go_alt_selects_top by assumption. now rewrite (split_slash_noslash t Ht).
+Qed.
+
+(* ---------- (1) a whole-pattern match on a function name implies Go selects the function - for EVERY pattern ---------- *)
+
+Theorem re_match_func_sound p name :
+  ~ In slash name -> re_match p name = true -> go_selects p name = true.
+Proof.
+  intros Hn Hm. rewrite re_match_split in Hm. apply existsb_exists in Hm as [t [Hin Ht]].
+  unfold go_selects. apply existsb_exists. exists t. split; [assumption|].
+  destruct (existsb (N.eqb slash) t) eqn:Hsl.
+  - apply existsb_exists in Hsl as [c [Hc Heq]]. apply N.eqb_eq in Heq. subst c.
+    rewrite (multi_level_alt_no_match t name Hc Hn) in Ht. discriminate.
+  - apply existsb_eqb_false in Hsl. now rewrite go_alt_selects_single_top.
+Qed.
+
+(* ---------- (2) a file none of whose test functions Go selects is protected ---------- *)
+
+Theorem unselected_file_protected p names :
+  p <> [] -> Forall (fun n => ~ In slash n) names ->
+  (forall n, In n names -> go_selects p n = false) ->
+  file_skipped_run p (Some names) = true.
+Proof.
+  intros Hp Hnames Hgo. unfold file_skipped_run. destruct p as [|c p]; [contradiction|].
+  apply negb_true_iff. destruct (existsb (re_match (c :: p)) names) eqn:E; [|reflexivity].
+  exfalso. apply existsb_exists in E as [n [Hin Hm]].
+  rewrite Forall_forall in Hnames.
+  specialize (Hgo n Hin).
+  rewrite (re_match_func_sound (c :: p) n (Hnames n Hin) Hm) in Hgo. discriminate.
+Qed.
+
+(* ---------- (3) single-level patterns: the two decisions coincide on function names ---------- *)
+
+Definition single_level (p : bytes) : bool :=
+  forallb (fun t => negb (existsb (N.eqb slash) t)) (split_bar p).
+
+Theorem single_level_func_equiv p name :
+  single_level p = true -> ~ In slash name -> go_selects p name = re_match p name.
+Proof.
+  intros Hp Hn. rewrite re_match_split. unfold go_selects. apply existsb_ext_in. intros t Hin.
+  unfold single_level in Hp. rewrite forallb_forall in Hp. specialize (Hp t Hin).
+  apply negb_existsb_eqb in Hp. now apply go_alt_selects_single_top.
+Qed.
+
+Corollary single_level_file_equiv p names :
+  single_level p = true -> p <> [] -> Forall (fun n => ~ In slash n) names ->
+  file_skipped_run p (Some names) = negb (existsb (go_selects p) names).
+Proof.
+  intros Hp Hne Hnames. unfold file_skipped_run. destruct p as [|c p]; [contradiction|].
+  f_equal. apply existsb_ext_in. intros n Hin. rewrite Forall_forall in Hnames.
+  symmetry. now apply single_level_func_equiv; [|apply Hnames].
+Qed.
+
+Lemma safe_pattern_single_level p : safe_pattern p = true -> single_level p = true.
+Proof.
+  unfold safe_pattern, single_level. rewrite !forallb_forall. intros H t Hin.
+  specialize (H t Hin). now apply andb_prop in H as [Hsl _].
+Qed.
+
+(* ---------- (4) the limits ---------- *)
+
+(* finding K6: without a parsable sibling .go file (standalone snapshots, custom file names) -run protects nothing *)
+Lemma file_without_sibling_unprotected p : file_skipped_run p None = false.
+Proof. destruct p; reflexivity. Qed.
+
+Example file_without_sibling_example :
+  B "^TestZeta$" <> [] /\ go_selects (B "^TestZeta$") (B "TestAlpha") = false /\
+  file_skipped_run (B "^TestZeta$") None = false.
+Proof. vm_compute. repeat split. discriminate. Qed.
+
+(* the converse of (1) fails for a multi-level pattern: Go runs TestAPI (to reach TestAPI/v1), the whole pattern does not match
+   the function name, the file stays protected - the harmless direction *)
+Example multi_level_file_overprotected :
+  single_level (B "TestAPI/v1") = false /\
+  go_selects (B "TestAPI/v1") (B "TestAPI") = true /\
+  re_match (B "TestAPI/v1") (B "TestAPI") = false /\
+  file_skipped_run (B "TestAPI/v1") (Some [B "TestAPI"]) = true.
+Proof. vm_compute. repeat split. Qed.
+
+(* the slash-free hypothesis of (1) is needed: against a name WITH '/' (a sub-test, never a function name) an unanchored
+   literal matches a deeper level that Go's per-level selection does not look at *)
+Example re_match_name_with_slash :
+  re_match (B "Sub2") (B "TestAlpha/Sub2") = true /\ go_selects (B "Sub2") (B "TestAlpha/Sub2") = false.
+Proof. vm_compute. repeat split. Qed.
+
+(* ---------- non-vacuity of (2) and (3) ---------- *)
+
+Definition ex_file_pattern : bytes := B "^TestAl|Beta$".
+Definition ex_file_names : list bytes := [B "TestGamma"; B "TestDelta"].
+
+Example ex_file_hyps :
+  ex_file_pattern <> [] /\ Forall (fun n => ~ In slash n) ex_file_names /\
+  (forall n, In n ex_file_names -> go_selects ex_file_pattern n = false).
+Proof.
+  split; [discriminate|]. split.
+  - repeat constructor; apply existsb_eqb_false; vm_compute; reflexivity.
+  - intros n [<-|[<-|[]]]; vm_compute; reflexivity.
+Qed.
+
+Example ex_file_protected : file_skipped_run ex_file_pattern (Some ex_file_names) = true.
+Proof.
+  destruct ex_file_hyps as [Hne [Hnames Hgo]].
+  exact (unselected_file_protected ex_file_pattern ex_file_names Hne Hnames Hgo).
+Qed.
+
+(* ... and a file holding a selected function is not protected; by the equivalence (3) *)
+Example ex_file_selected :
+  file_skipped_run ex_file_pattern (Some [B "TestGamma"; B "TestBeta"]) = false.
+Proof.
+  rewrite single_level_file_equiv.
+  - vm_compute. reflexivity.
+  - vm_compute. reflexivity.
+  - discriminate.
+  - repeat constructor; apply existsb_eqb_false; vm_compute; reflexivity.
+Qed.
+
+Example ex_func_sound_applies :
+  re_match ex_file_pattern (B "TestAlpha") = true /\ go_selects ex_file_pattern (B "TestAlpha") = true.
+Proof.
+  assert (Hm : re_match ex_file_pattern (B "TestAlpha") = true) by (vm_compute; reflexivity).
+  split; [exact Hm|]. apply re_match_func_sound; [|exact Hm].
+  apply existsb_eqb_false. vm_compute. reflexivity.
+Qed.
+
+Print Assumptions re_match_func_sound.
+Print Assumptions unselected_file_protected.
+Print Assumptions single_level_func_equiv.
+Print Assumptions single_level_file_equiv.
+Print Assumptions file_without_sibling_unprotected.
